@@ -1,0 +1,44 @@
+//go:build verif
+
+package httprule
+
+import "strings"
+
+// Exports for the external verification harness (tag "verif" only).
+
+// VerifTokenize exposes the tokenizer.
+func VerifTokenize(tmpl string) []string { return tokenize(tmpl) }
+
+// VerifDump renders a parsed template canonically:
+//
+//	segments separated by "/" ; literal = L(<text>) ; * = W ; ** = M ; variable = V(<a.b.c>=<segments>) ; then "|verb=" verb.
+func (t *Template) VerifDump() string {
+	var sb strings.Builder
+	dumpSegments(&sb, t.segments)
+	sb.WriteString("|verb=")
+	sb.WriteString(t.verb)
+	return sb.String()
+}
+
+// VerifTemplate returns the original template string.
+func (t *Template) VerifTemplate() string { return t.tmpl }
+
+func dumpSegments(sb *strings.Builder, segs []segment) {
+	for i, s := range segs {
+		if i > 0 {
+			sb.WriteString("/")
+		}
+		switch s.typ {
+		case segmentWildcard:
+			sb.WriteString("W")
+		case segmentMultiWildcard:
+			sb.WriteString("M")
+		case segmentLiteral:
+			sb.WriteString("L(" + s.literal + ")")
+		case segmentVariable:
+			sb.WriteString("V(" + strings.Join(s.variable.fieldPath, ".") + "=")
+			dumpSegments(sb, s.variable.segments)
+			sb.WriteString(")")
+		}
+	}
+}
